@@ -12,7 +12,9 @@ ONE_Q = ["h", "x", "y", "z", "s", "sdg", "sx", "t", "tdg"]
 ONE_Q_PARAM = ["rx", "ry", "rz", "p"]
 
 SPECIAL_ANGLES = [0.0, math.pi, -math.pi, 2 * math.pi, -4 * math.pi, 13.5, -14.25, 1e-9, math.pi / 2, -math.pi / 2,
-                  math.pi / 4, 3 * math.pi / 4, 0.5, -0.25, 1.0, 2.0, 6 * math.pi + 0.125]
+                  math.pi / 4, 3 * math.pi / 4, 0.5, -0.25, 1.0, 2.0, 6 * math.pi + 0.125,
+                  # close to, but not at, the angles where a rotation becomes trivial (|sin| of order 1e-4 .. 1e-2)
+                  0.004, math.pi - 0.003, 2 * math.pi + 0.01, -4 * math.pi - 0.008, 1e-4]
 
 
 def rand_angle(rng):
